@@ -1,39 +1,39 @@
-/* contracts_u/lru_cache_u.c -- route U harnesses for lru_cache: one entry function per extracted function.
+/* contracts_u/mru_cache_u.c -- route U harnesses for mru_cache: one entry function per extracted function.
  * Pattern: bind the pools to the top-level infinite arrays; ASSUME wf at an explicit finite instance list
  * (the nodes/slots/entries/keys the operation and the ghost observers touch, and their list neighbours);
  * snapshot the pre-state view at the ghost key; run the extracted function; ASSERT every wf clause at arbitrary
- * ghost instances and the view-level postconditions (the same statements as contracts/lru_cache.spec).
+ * ghost instances and the view-level postconditions (the same statements as contracts/mru_cache.spec).
  * Capacity, list length, pool sizes: unbounded (symbolic). */
-#include "lru_cache.c"
-#include "lru_cache_u.h"
+#include "mru_cache.c"
+#include "mru_cache_u.h"
 uint64_t G_g, G_h; int64_t G_NOW; uint64_t G_RAND; cstl_ms G_MS; int64_t G_NS;
 int64_t cstl_now(void) { return G_NOW; }
 uint64_t cstl_rand_range(uint64_t a, uint64_t b) { __CPROVER_assume(a <= G_RAND && G_RAND <= b); return G_RAND; }
 cstl_iter G_i, G_j, G_e; uint64_t G_k;
-lru_cache S; /* the object; statics are nondeterministic (--nondet-static) */
+mru_cache S; /* the object; statics are nondeterministic (--nondet-static) */
 
 #define NODE(i) __CPROVER_assume(u_inv_node(self, (i)))
 #define ENTRY(e) __CPROVER_assume(u_inv_entry(self, (e)))
 #define KEY(k) __CPROVER_assume(u_inv_key(self, (k)))
 #define PAIR(i, j) __CPROVER_assume(u_inv_pair(self, (i), (j)) && u_inv_pair(self, (j), (i)))
-#define NODEOF_ENTRY(e) (self->m_elements.data[self->P_H.kv[(e)].second].m_lru_position)
+#define NODEOF_ENTRY(e) (self->m_elements.data[self->P_H.kv[(e)].second].m_mru_position)
 #define ENTRYOF_NODE(i) (self->m_elements.data[self->P_L0.val[(i)]].m_keyed_position)
 #define NX(i) (self->P_L0.next[(i)])
 #define PV(i) (self->P_L0.prev[(i)])
 
-static lru_cache *u_bind(void)
+static mru_cache *u_bind(void)
 {
-    lru_cache *self = &S;
-    lru_cache__L0_pool_bind(&self->P_L0); lru_cache__H_pool_bind(&self->P_H); lru_cache__V0_bind(&self->m_elements);
+    mru_cache *self = &S;
+    mru_cache__L0_pool_bind(&self->P_L0); mru_cache__H_pool_bind(&self->P_H); mru_cache__V0_bind(&self->m_elements);
     return self;
 }
 /* instantiate wf at the given nodes (pairwise too), at the ghost instances and everything the ghosts point to */
-static void u_assume_wf(lru_cache *self, cstl_iter *nodes, unsigned n, uint64_t *keys, unsigned nk)
+static void u_assume_wf(mru_cache *self, cstl_iter *nodes, unsigned n, uint64_t *keys, unsigned nk)
 {
     __CPROVER_assume(u_inv0(self));
     cstl_iter all[24]; unsigned m = 0;
     for (unsigned a = 0; a < n; a++) all[m++] = nodes[a];
-    cstl_iter h = HEAD(self), end = self->m_lru_end;
+    cstl_iter h = HEAD(self), end = self->m_mru_end;
     all[m++] = h; all[m++] = NX(h); all[m++] = PV(h); all[m++] = end; all[m++] = PV(end); all[m++] = G_i; all[m++] = G_j; all[m++] = NX(G_i); all[m++] = PV(G_i);
     all[m++] = NODEOF_ENTRY(G_e);
     for (unsigned a = 0; a < nk; a++) all[m++] = NODEOF_ENTRY(self->P_H.idx[keys[a]]);
@@ -48,22 +48,22 @@ static void u_assume_wf(lru_cache *self, cstl_iter *nodes, unsigned n, uint64_t 
 }
 #define ASSERT_WF(fn)                                                                                                          \
     __CPROVER_assert(u_inv0(self), "U " fn ": wf scalars (counter, partition iterator, reserve) [C01 C02 C03 C08]");             \
-    __CPROVER_assert(u_inv_node(self, G_i), "U " fn ": wf node clause at an arbitrary node [C01 C02 C03 C08 C10]");              \
-    __CPROVER_assert(u_inv_pair(self, G_i, G_j), "U " fn ": wf rank/slot injectivity at an arbitrary pair [C01 C08 C10]");       \
+    __CPROVER_assert(u_inv_node(self, G_i), "U " fn ": wf node clause at an arbitrary node [C01 C02 C03 C08 C13]");              \
+    __CPROVER_assert(u_inv_pair(self, G_i, G_j), "U " fn ": wf rank/slot injectivity at an arbitrary pair [C01 C08 C13]");       \
     __CPROVER_assert(u_inv_entry(self, G_e), "U " fn ": wf index-entry clause at an arbitrary entry [C01 C02 C03 C08]");         \
     __CPROVER_assert(u_inv_key(self, G_k), "U " fn ": wf key clause at an arbitrary key [C01]");                                 \
     __CPROVER_assert(self->m_elements.size == cap0 && self->m_lock.m_lock.held == held0 && self->m_lock.m_lock.acq == acq0, "U " fn ": frame (capacity, lock state) [C02 C06]")
 
 #define ASSERT_WF_PUB(fn)                                                                                                      \
     __CPROVER_assert(u_inv0(self), "U " fn ": wf scalars (counter, partition iterator, reserve) [C01 C02 C03 C08]");             \
-    __CPROVER_assert(u_inv_node(self, G_i), "U " fn ": wf node clause at an arbitrary node [C01 C02 C03 C08 C10]");              \
-    __CPROVER_assert(u_inv_pair(self, G_i, G_j), "U " fn ": wf rank/slot injectivity at an arbitrary pair [C01 C08 C10]");       \
+    __CPROVER_assert(u_inv_node(self, G_i), "U " fn ": wf node clause at an arbitrary node [C01 C02 C03 C08 C13]");              \
+    __CPROVER_assert(u_inv_pair(self, G_i, G_j), "U " fn ": wf rank/slot injectivity at an arbitrary pair [C01 C08 C13]");       \
     __CPROVER_assert(u_inv_entry(self, G_e), "U " fn ": wf index-entry clause at an arbitrary entry [C01 C02 C03 C08]");         \
     __CPROVER_assert(u_inv_key(self, G_k), "U " fn ": wf key clause at an arbitrary key [C01]");                                 \
     __CPROVER_assert(self->m_elements.size == cap0 && !self->m_lock.m_lock.held && self->m_lock.m_lock.acq == acq0 + 1, "U " fn ": one critical section, capacity unchanged [C02 C06 C07]")
 
 typedef struct { bool has; uint64_t val, ord; } uvw;
-static uvw u_view(const lru_cache *c, uint64_t k)
+static uvw u_view(const mru_cache *c, uint64_t k)
 {
     uvw r; r.has = u_has(c, k); r.val = r.has ? u_val(c, k) : 0; r.ord = r.has ? u_ord(c, k) : 0; return r;
 }
@@ -72,30 +72,30 @@ static uvw u_view(const lru_cache *c, uint64_t k)
 
 void h_do_erase(void)
 {
-    lru_cache *self = u_bind();
+    mru_cache *self = u_bind();
     uint64_t idx;
     __CPROVER_assume(self->m_lock.m_lock.held && idx < CAP(self));
-    cstl_iter x = self->m_elements.data[idx].m_lru_position;
-    cstl_iter nodes[] = {x, NX(x), PV(x), PV(PV(self->m_lru_end))};
+    cstl_iter x = self->m_elements.data[idx].m_mru_position;
+    cstl_iter nodes[] = {x, NX(x), PV(x), PV(PV(self->m_mru_end))};
     uint64_t  keys[] = {G_g};
     u_assume_wf(self, nodes, 4, keys, 1);
     __CPROVER_assume(u_node(self, x) && self->P_L0.val[x] == idx && u_rank(self, x) < USED(self)); /* requires: slot idx is in use */
     uint64_t k = self->P_H.kv[self->m_elements.data[idx].m_keyed_position].first, k_ord = u_rank(self, x);
     KEY(k);
     SNAP();
-    lru_cache__do_erase(self, idx);
+    mru_cache__do_erase(self, idx);
     uvw g1 = u_view(self, G_g);
-    ASSERT_WF("lru do_erase");
-    __CPROVER_assert(!u_has(self, k), "U lru do_erase: erased key gone [C01]");
-    __CPROVER_assert(G_g == k || KEPT(g0, g1), "U lru do_erase: every other key kept with its value [C01 C03]");
-    __CPROVER_assert(G_g == k || !g0.has || g1.ord == g0.ord - (g0.ord > k_ord ? 1 : 0), "U lru do_erase: recency ranks [C10]");
-    __CPROVER_assert(USED(self) + 1 == used0, "U lru do_erase: size [C02 C03]");
+    ASSERT_WF("mru do_erase");
+    __CPROVER_assert(!u_has(self, k), "U mru do_erase: erased key gone [C01]");
+    __CPROVER_assert(G_g == k || KEPT(g0, g1), "U mru do_erase: every other key kept with its value [C01 C03]");
+    __CPROVER_assert(G_g == k || !g0.has || g1.ord == g0.ord - (g0.ord > k_ord ? 1 : 0), "U mru do_erase: recency ranks [C13]");
+    __CPROVER_assert(USED(self) + 1 == used0, "U mru do_erase: size [C02 C03]");
     __CPROVER_assert(0, "vacuity sentinel");
 }
 
 void h_do_prune(void)
 {
-    lru_cache *self = u_bind();
+    mru_cache *self = u_bind();
     __CPROVER_assume(self->m_lock.m_lock.held);
     cstl_iter x = PV(HEAD(self));
     cstl_iter nodes[] = {x, PV(x)};
@@ -105,19 +105,19 @@ void h_do_prune(void)
     uint64_t k = self->P_H.kv[ENTRYOF_NODE(x)].first, k_ord = u_rank(self, x);
     KEY(k);
     SNAP();
-    lru_cache__do_prune(self);
+    mru_cache__do_prune(self);
     uvw g1 = u_view(self, G_g);
-    ASSERT_WF("lru do_prune");
-    __CPROVER_assert(k_ord == cap0 - 1, "U lru do_prune: the victim is the entry of highest recency rank (least recently used) [C10]");
-    __CPROVER_assert(!u_has(self, k), "U lru do_prune: victim gone [C03 C10]");
-    __CPROVER_assert(G_g == k || (KEPT(g0, g1) && (!g0.has || g1.ord == g0.ord)), "U lru do_prune: every other key kept, order unchanged [C01 C03 C10]");
-    __CPROVER_assert(USED(self) + 1 == used0, "U lru do_prune: size [C02 C03]");
+    ASSERT_WF("mru do_prune");
+    __CPROVER_assert(k_ord == cap0 - 1, "U mru do_prune: the victim is the entry of highest rank (most recently used) [C13]");
+    __CPROVER_assert(!u_has(self, k), "U mru do_prune: victim gone [C03 C13]");
+    __CPROVER_assert(G_g == k || (KEPT(g0, g1) && (!g0.has || g1.ord == g0.ord)), "U mru do_prune: every other key kept, order unchanged [C01 C03 C13]");
+    __CPROVER_assert(USED(self) + 1 == used0, "U mru do_prune: size [C02 C03]");
     __CPROVER_assert(0, "vacuity sentinel");
 }
 
 void h_do_find(void)
 {
-    lru_cache *self = u_bind();
+    mru_cache *self = u_bind();
     uint64_t key; int peek;
     __CPROVER_assume(self->m_lock.m_lock.held && (peek == cappuccino_peek_no || peek == cappuccino_peek_yes));
     cstl_iter e = self->P_H.idx[key];
@@ -127,19 +127,19 @@ void h_do_find(void)
     u_assume_wf(self, nodes, 3, keys, 2);
     SNAP();
     uvw k0 = u_view(self, key);
-    cstl_opt r = lru_cache__do_find(self, key, peek);
+    cstl_opt r = mru_cache__do_find(self, key, peek);
     uvw g1 = u_view(self, G_g), k1 = u_view(self, key);
-    ASSERT_WF("lru do_find");
-    __CPROVER_assert(r.has == k0.has && (!r.has || r.v == k0.val), "U lru do_find: a hit returns the stored value, a miss reports absent [C01]");
-    __CPROVER_assert(KEPT(g0, g1) && KEPT(k0, k1) && USED(self) == used0, "U lru do_find: nothing added, removed or overwritten [C01 C03 C19]");
-    __CPROVER_assert(!(k0.has && peek == cappuccino_peek_no) || (k1.ord == 0 && (G_g == key || !g0.has || g1.ord == g0.ord + (g0.ord < k0.ord ? 1 : 0))), "U lru do_find: a non-peek hit is a use (moves to rank 0) [C10]");
-    __CPROVER_assert((k0.has && peek == cappuccino_peek_no) || (!g0.has || g1.ord == g0.ord), "U lru do_find: peek and miss leave the order unchanged [C10 C19]");
+    ASSERT_WF("mru do_find");
+    __CPROVER_assert(r.has == k0.has && (!r.has || r.v == k0.val), "U mru do_find: a hit returns the stored value, a miss reports absent [C01]");
+    __CPROVER_assert(KEPT(g0, g1) && KEPT(k0, k1) && USED(self) == used0, "U mru do_find: nothing added, removed or overwritten [C01 C03 C19]");
+    __CPROVER_assert(!(k0.has && peek == cappuccino_peek_no) || (k1.ord == used0 - 1 && (G_g == key || !g0.has || g1.ord == g0.ord - (g0.ord > k0.ord ? 1 : 0))), "U mru do_find: a non-peek hit is a use (moves to rank 0) [C13]");
+    __CPROVER_assert((k0.has && peek == cappuccino_peek_no) || (!g0.has || g1.ord == g0.ord), "U mru do_find: peek and miss leave the order unchanged [C13 C19]");
     __CPROVER_assert(0, "vacuity sentinel");
 }
 
 void h_do_update(void)
 {
-    lru_cache *self = u_bind();
+    mru_cache *self = u_bind();
     cstl_iter kp; uint64_t value;
     __CPROVER_assume(self->m_lock.m_lock.held && kp != UEND && self->P_H.alive[kp]); /* requires: live entry */
     cstl_iter x = NODEOF_ENTRY(kp);
@@ -150,31 +150,31 @@ void h_do_update(void)
     ENTRY(kp);
     SNAP();
     uvw k0 = u_view(self, key);
-    lru_cache__do_update(self, kp, value);
+    mru_cache__do_update(self, kp, value);
     uvw g1 = u_view(self, G_g), k1 = u_view(self, key);
-    ASSERT_WF("lru do_update");
-    __CPROVER_assert(k1.has && k1.val == value && k1.ord == 0, "U lru do_update: value replaced, entry most recently used [C01 C09 C10]");
-    __CPROVER_assert(G_g == key || (KEPT(g0, g1) && (!g0.has || g1.ord == g0.ord + (g0.ord < k0.ord ? 1 : 0))), "U lru do_update: other keys kept, ranks shifted [C01 C03 C10]");
-    __CPROVER_assert(USED(self) == used0, "U lru do_update: size [C02 C03]");
+    ASSERT_WF("mru do_update");
+    __CPROVER_assert(k1.has && k1.val == value && k1.ord == used0 - 1, "U mru do_update: value replaced, entry most recently used [C01 C09 C13]");
+    __CPROVER_assert(G_g == key || (KEPT(g0, g1) && (!g0.has || g1.ord == g0.ord - (g0.ord > k0.ord ? 1 : 0))), "U mru do_update: other keys kept, ranks shifted [C01 C03 C13]");
+    __CPROVER_assert(USED(self) == used0, "U mru do_update: size [C02 C03]");
     __CPROVER_assert(0, "vacuity sentinel");
 }
 
-static void post_insert(lru_cache *self, uint64_t key, uint64_t value, uvw g0, uint64_t used0, uint64_t cap0, bool full, uint64_t victim, const char *unused)
+static void post_insert(mru_cache *self, uint64_t key, uint64_t value, uvw g0, uint64_t used0, uint64_t cap0, bool full, uint64_t victim, const char *unused)
 {
     (void)unused;
     uvw g1 = u_view(self, G_g), k1 = u_view(self, key);
-    __CPROVER_assert(k1.has && k1.val == value && k1.ord == 0, "U lru insert path: the new key is stored with its value as most recently used [C01 C03 C10]");
-    __CPROVER_assert(USED(self) == (full ? cap0 : used0 + 1), "U lru insert path: size grows by one unless full [C02 C03]");
-    __CPROVER_assert(!full || !u_has(self, victim) || victim == key, "U lru insert path: when full the least recently used entry is evicted [C03 C10]");
-    __CPROVER_assert(G_g == key || (full && G_g == victim) || (KEPT(g0, g1) && (!g0.has || g1.ord == g0.ord + 1)), "U lru insert path: every other key kept, ranks + 1 [C01 C03 C10]");
+    __CPROVER_assert(k1.has && k1.val == value && k1.ord == (full ? cap0 - 1 : used0), "U mru insert path: the new key is stored with its value as the most recently used (newest rank) [C01 C03 C13]");
+    __CPROVER_assert(USED(self) == (full ? cap0 : used0 + 1), "U mru insert path: size grows by one unless full [C02 C03]");
+    __CPROVER_assert(!full || !u_has(self, victim) || victim == key, "U mru insert path: when full the MOST recently used entry is evicted [C03 C13]");
+    __CPROVER_assert(G_g == key || (full && G_g == victim) || (KEPT(g0, g1) && (!g0.has || g1.ord == g0.ord)), "U mru insert path: every other key kept, ranks unchanged [C01 C03 C13]");
 }
 
 void h_do_insert(void)
 {
-    lru_cache *self = u_bind();
+    mru_cache *self = u_bind();
     uint64_t key, value;
     __CPROVER_assume(self->m_lock.m_lock.held);
-    cstl_iter y = self->m_lru_end, b = PV(HEAD(self));
+    cstl_iter y = self->m_mru_end, b = PV(HEAD(self));
     cstl_iter nodes[] = {y, NX(y), PV(y), b, PV(b)};
     uint64_t  keys[] = {G_g, key};
     u_assume_wf(self, nodes, 5, keys, 2);
@@ -182,20 +182,20 @@ void h_do_insert(void)
     bool     full = USED(self) >= CAP(self);
     uint64_t victim = self->P_H.kv[ENTRYOF_NODE(b)].first;
     KEY(victim);
-    __CPROVER_assert(!full || u_rank(self, b) == CAP(self) - 1, "U lru do_insert: the eviction candidate has the highest recency rank [C10]");
+    __CPROVER_assert(!full || u_rank(self, b) == CAP(self) - 1, "U mru do_insert: the eviction candidate has the highest rank (most recently used) [C13]");
     SNAP();
-    lru_cache__do_insert(self, key, value);
-    ASSERT_WF("lru do_insert");
+    mru_cache__do_insert(self, key, value);
+    ASSERT_WF("mru do_insert");
     post_insert(self, key, value, g0, used0, cap0, full, victim, "");
     __CPROVER_assert(0, "vacuity sentinel");
 }
 
 void h_do_insert_update(void)
 {
-    lru_cache *self = u_bind();
+    mru_cache *self = u_bind();
     uint64_t key, value, a;
     __CPROVER_assume(self->m_lock.m_lock.held && a >= 1 && a <= 3);
-    cstl_iter y = self->m_lru_end, b = PV(HEAD(self)), x = NODEOF_ENTRY(self->P_H.idx[key]);
+    cstl_iter y = self->m_mru_end, b = PV(HEAD(self)), x = NODEOF_ENTRY(self->P_H.idx[key]);
     cstl_iter nodes[] = {y, NX(y), PV(y), b, PV(b), x, NX(x), PV(x)};
     uint64_t  keys[] = {G_g, key};
     u_assume_wf(self, nodes, 8, keys, 2);
@@ -204,15 +204,15 @@ void h_do_insert_update(void)
     KEY(victim);
     SNAP();
     uvw  k0 = u_view(self, key);
-    bool r = lru_cache__do_insert_update(self, key, value, a);
+    bool r = mru_cache__do_insert_update(self, key, value, a);
     uvw  g1 = u_view(self, G_g), k1 = u_view(self, key);
-    ASSERT_WF("lru do_insert_update");
-    __CPROVER_assert(r == (k0.has ? (a & 2) != 0 : (a & 1) != 0), "U lru do_insert_update: result obeys the allow mode [C09]");
-    __CPROVER_assert(r || (KEPT(g0, g1) && KEPT(k0, k1) && (!g0.has || g1.ord == g0.ord) && (!k0.has || k1.ord == k0.ord) && USED(self) == used0), "U lru do_insert_update: a rejected call changes nothing [C09 C19]");
+    ASSERT_WF("mru do_insert_update");
+    __CPROVER_assert(r == (k0.has ? (a & 2) != 0 : (a & 1) != 0), "U mru do_insert_update: result obeys the allow mode [C09]");
+    __CPROVER_assert(r || (KEPT(g0, g1) && KEPT(k0, k1) && (!g0.has || g1.ord == g0.ord) && (!k0.has || k1.ord == k0.ord) && USED(self) == used0), "U mru do_insert_update: a rejected call changes nothing [C09 C19]");
     if (r && k0.has)
     {
-        __CPROVER_assert(k1.has && k1.val == value && k1.ord == 0 && USED(self) == used0, "U lru do_insert_update: update replaces the value and counts as a use [C01 C09 C10]");
-        __CPROVER_assert(G_g == key || (KEPT(g0, g1) && (!g0.has || g1.ord == g0.ord + (g0.ord < k0.ord ? 1 : 0))), "U lru do_insert_update: update keeps other keys [C01 C03 C10]");
+        __CPROVER_assert(k1.has && k1.val == value && k1.ord == used0 - 1 && USED(self) == used0, "U mru do_insert_update: update replaces the value and counts as a use [C01 C09 C13]");
+        __CPROVER_assert(G_g == key || (KEPT(g0, g1) && (!g0.has || g1.ord == g0.ord - (g0.ord > k0.ord ? 1 : 0))), "U mru do_insert_update: update keeps other keys [C01 C03 C13]");
     }
     if (r && !k0.has) post_insert(self, key, value, g0, used0, cap0, full, victim, "");
     __CPROVER_assert(0, "vacuity sentinel");
@@ -221,7 +221,7 @@ void h_do_insert_update(void)
 /* ---- public single-key methods: lock; helper; unlock ------------------------------------------------------- */
 void h_find(void)
 {
-    lru_cache *self = u_bind();
+    mru_cache *self = u_bind();
     uint64_t key; int peek;
     __CPROVER_assume(!self->m_lock.m_lock.held && self->m_lock.m_lock.acq < UINT64_MAX - 1 && (peek == cappuccino_peek_no || peek == cappuccino_peek_yes));
     cstl_iter x = NODEOF_ENTRY(self->P_H.idx[key]);
@@ -230,43 +230,43 @@ void h_find(void)
     u_assume_wf(self, nodes, 3, keys, 2);
     SNAP();
     uvw k0 = u_view(self, key);
-    cstl_opt r = lru_cache__find(self, key, peek);
+    cstl_opt r = mru_cache__find(self, key, peek);
     uvw g1 = u_view(self, G_g), k1 = u_view(self, key);
-    ASSERT_WF_PUB("lru find");
-    __CPROVER_assert(r.has == k0.has && (!r.has || r.v == k0.val), "U lru find: a hit returns the stored value, a miss reports absent [C01]");
-    __CPROVER_assert(KEPT(g0, g1) && KEPT(k0, k1) && USED(self) == used0, "U lru find: nothing added, removed or overwritten [C01 C03 C19]");
-    __CPROVER_assert(!(k0.has && peek == cappuccino_peek_no) || (k1.ord == 0 && (G_g == key || !g0.has || g1.ord == g0.ord + (g0.ord < k0.ord ? 1 : 0))), "U lru find: a non-peek hit is a use [C10]");
-    __CPROVER_assert((k0.has && peek == cappuccino_peek_no) || (!g0.has || g1.ord == g0.ord), "U lru find: peek and miss leave the order unchanged [C10 C19]");
+    ASSERT_WF_PUB("mru find");
+    __CPROVER_assert(r.has == k0.has && (!r.has || r.v == k0.val), "U mru find: a hit returns the stored value, a miss reports absent [C01]");
+    __CPROVER_assert(KEPT(g0, g1) && KEPT(k0, k1) && USED(self) == used0, "U mru find: nothing added, removed or overwritten [C01 C03 C19]");
+    __CPROVER_assert(!(k0.has && peek == cappuccino_peek_no) || (k1.ord == used0 - 1 && (G_g == key || !g0.has || g1.ord == g0.ord - (g0.ord > k0.ord ? 1 : 0))), "U mru find: a non-peek hit is a use [C13]");
+    __CPROVER_assert((k0.has && peek == cappuccino_peek_no) || (!g0.has || g1.ord == g0.ord), "U mru find: peek and miss leave the order unchanged [C13 C19]");
     __CPROVER_assert(0, "vacuity sentinel");
 }
 
 void h_erase(void)
 {
-    lru_cache *self = u_bind();
+    mru_cache *self = u_bind();
     uint64_t key;
     __CPROVER_assume(!self->m_lock.m_lock.held && self->m_lock.m_lock.acq < UINT64_MAX - 1);
     cstl_iter x = NODEOF_ENTRY(self->P_H.idx[key]);
-    cstl_iter nodes[] = {x, NX(x), PV(x), PV(PV(self->m_lru_end))};
+    cstl_iter nodes[] = {x, NX(x), PV(x), PV(PV(self->m_mru_end))};
     uint64_t  keys[] = {G_g, key};
     u_assume_wf(self, nodes, 4, keys, 2);
     SNAP();
     uvw  k0 = u_view(self, key);
-    bool r = lru_cache__erase(self, key);
+    bool r = mru_cache__erase(self, key);
     uvw  g1 = u_view(self, G_g);
-    ASSERT_WF_PUB("lru erase");
-    __CPROVER_assert(r == k0.has && !u_has(self, key), "U lru erase: reports whether the key was present; the key is absent afterwards [C01 C03]");
-    __CPROVER_assert(G_g == key || KEPT(g0, g1), "U lru erase: every other key kept with its value [C01 C03 C19]");
-    __CPROVER_assert(G_g == key || !g0.has || g1.ord == (k0.has ? g0.ord - (g0.ord > k0.ord ? 1 : 0) : g0.ord), "U lru erase: recency ranks [C10 C19]");
-    __CPROVER_assert(USED(self) + (r ? 1 : 0) == used0, "U lru erase: size [C02 C03 C19]");
+    ASSERT_WF_PUB("mru erase");
+    __CPROVER_assert(r == k0.has && !u_has(self, key), "U mru erase: reports whether the key was present; the key is absent afterwards [C01 C03]");
+    __CPROVER_assert(G_g == key || KEPT(g0, g1), "U mru erase: every other key kept with its value [C01 C03 C19]");
+    __CPROVER_assert(G_g == key || !g0.has || g1.ord == (k0.has ? g0.ord - (g0.ord > k0.ord ? 1 : 0) : g0.ord), "U mru erase: recency ranks [C13 C19]");
+    __CPROVER_assert(USED(self) + (r ? 1 : 0) == used0, "U mru erase: size [C02 C03 C19]");
     __CPROVER_assert(0, "vacuity sentinel");
 }
 
 void h_insert(void)
 {
-    lru_cache *self = u_bind();
+    mru_cache *self = u_bind();
     uint64_t key, value, a;
     __CPROVER_assume(!self->m_lock.m_lock.held && self->m_lock.m_lock.acq < UINT64_MAX - 1 && a >= 1 && a <= 3);
-    cstl_iter y = self->m_lru_end, b = PV(HEAD(self)), x = NODEOF_ENTRY(self->P_H.idx[key]);
+    cstl_iter y = self->m_mru_end, b = PV(HEAD(self)), x = NODEOF_ENTRY(self->P_H.idx[key]);
     cstl_iter nodes[] = {y, NX(y), PV(y), b, PV(b), x, NX(x), PV(x)};
     uint64_t  keys[] = {G_g, key};
     u_assume_wf(self, nodes, 8, keys, 2);
@@ -275,15 +275,15 @@ void h_insert(void)
     KEY(victim);
     SNAP();
     uvw  k0 = u_view(self, key);
-    bool r = lru_cache__insert(self, key, value, a);
+    bool r = mru_cache__insert(self, key, value, a);
     uvw  g1 = u_view(self, G_g), k1 = u_view(self, key);
-    ASSERT_WF_PUB("lru insert");
-    __CPROVER_assert(r == (k0.has ? (a & 2) != 0 : (a & 1) != 0), "U lru insert: result obeys the allow mode [C09]");
-    __CPROVER_assert(r || (KEPT(g0, g1) && KEPT(k0, k1) && (!g0.has || g1.ord == g0.ord) && (!k0.has || k1.ord == k0.ord) && USED(self) == used0), "U lru insert: a rejected call changes nothing [C09 C19]");
+    ASSERT_WF_PUB("mru insert");
+    __CPROVER_assert(r == (k0.has ? (a & 2) != 0 : (a & 1) != 0), "U mru insert: result obeys the allow mode [C09]");
+    __CPROVER_assert(r || (KEPT(g0, g1) && KEPT(k0, k1) && (!g0.has || g1.ord == g0.ord) && (!k0.has || k1.ord == k0.ord) && USED(self) == used0), "U mru insert: a rejected call changes nothing [C09 C19]");
     if (r && k0.has)
     {
-        __CPROVER_assert(k1.has && k1.val == value && k1.ord == 0 && USED(self) == used0, "U lru insert: update replaces the value and counts as a use [C01 C09 C10]");
-        __CPROVER_assert(G_g == key || (KEPT(g0, g1) && (!g0.has || g1.ord == g0.ord + (g0.ord < k0.ord ? 1 : 0))), "U lru insert: update keeps other keys [C01 C03 C10]");
+        __CPROVER_assert(k1.has && k1.val == value && k1.ord == used0 - 1 && USED(self) == used0, "U mru insert: update replaces the value and counts as a use [C01 C09 C13]");
+        __CPROVER_assert(G_g == key || (KEPT(g0, g1) && (!g0.has || g1.ord == g0.ord - (g0.ord > k0.ord ? 1 : 0))), "U mru insert: update keeps other keys [C01 C03 C13]");
     }
     if (r && !k0.has) post_insert(self, key, value, g0, used0, cap0, full, victim, "");
     __CPROVER_assert(0, "vacuity sentinel");
